@@ -625,8 +625,10 @@ class Gen:
             return {"k": "int", "w": t[1], "s": t[2]}
         if t[0] == "bool":
             return {"k": "bool"}
+        if t[0] == "opt":
+            return {"k": "opt"}
         if t[0] == "arr":
-            return {"k": "arr", "t": self.tdesc(t[2])}
+            return {"k": "arr", "t": self.tdesc(t[2]), "n": t[1]}
         return {"k": "rec", "ns": [f for f, _ in t[2]], "ts": [self.tdesc(ft) for _, ft in t[2]]}
 
     def lit_of(self, t):
@@ -649,6 +651,61 @@ class Gen:
                 out += self.leaves({"e": "fld", "x": e, "f": fn}, ft)
             return out
         return [(e, t)]
+
+    def misc_helper_fns(self):
+        var = lambda n: {"e": "var", "n": n}
+        blk = lambda ss, tail=NONE: {"e": "blk", "label": "", "ss": ss, "tail": tail}
+        # nxt :: (c: ^mut i32) -> usize { c^ += 1; usize.(c^) }      (an index with a side effect)
+        f1 = {"name": "nxt", "params": [{"n": "c", "ty": ("ptr", True, I32)}], "ret": "usize",
+              "body": blk([{"s": "cset", "op": "add", "l": {"l": "deref", "p": var("c")}, "x": self.int_lit(I32, 1)}],
+                          {"e": "cast", "ty": {"w": 8, "s": False}, "tytext": "usize", "x": {"e": "deref", "x": var("c")}})}
+        # zp :: (z: Z0, n: i32, v: Z0, m: i32) -> i32 { n * k - m }      (zero-sized parameters before real ones)
+        f2 = {"name": "zp", "params": [{"n": "z", "ty": "Z0"}, {"n": "n", "ty": I32}, {"n": "v", "ty": "Z0"}, {"n": "m", "ty": I32}], "ret": I32,
+              "body": blk([], {"e": "bin", "op": "sub", "l": {"e": "bin", "op": "mul", "l": var("n"), "r": self.int_lit(I32, self.r.randrange(2, 9))},
+                               "r": var("m")})}
+        return [f1, f2]
+
+    def stmt_misc(self):
+        """(a) a compound assignment whose destination has a side effect (evaluated once);
+        (b) values declared without initialiser (zero / nil member by member), between guard values;
+        (c) a call with zero-sized arguments before the real ones"""
+        r = self.r
+        k = r.random()
+        ss = []
+        if k < 0.35:
+            a, c = self.fresh(), self.fresh()
+            t = ("arr", 4, I32)
+            ss.append({"s": "let", "n": a, "x": self.expr(t), "ty": t, "mut": True})
+            ss.append({"s": "let", "n": c, "x": self.int_lit(I32, 0), "ty": I32, "mut": True})
+            idx = {"e": "call", "f": "nxt", "args": [{"e": "ref", "l": {"l": "var", "n": c}, "m": True}]}
+            ss.append({"s": "cset", "op": r.choice(["add", "mul", "xor"]), "l": {"l": "idx", "a": {"l": "var", "n": a}, "i": idx}, "x": self.expr(I32)})
+            ss.append({"s": "set", "l": {"l": "idx", "a": {"l": "var", "n": a}, "i": idx}, "x": self.expr(I32)})
+            ss.append({"s": "print", "ty": I32, "x": {"e": "var", "n": c}})
+            for j in range(4):
+                ss.append({"s": "print", "ty": I32, "x": {"e": "idx", "a": {"e": "var", "n": a}, "i": self.index_lit(j)}})
+        elif k < 0.7:
+            g1, x, g2 = self.fresh(), self.fresh(), self.fresh()
+            t = r.choice([("arr", r.choice([3, 8]), ("opt", U8)), ("arr", 4, ("opt", U16)), ("arr", 5, U8), ("arr", 3, I16),
+                          ("rec", "DZ", (("a", U8), ("o", ("opt", U8)), ("k", I32)))])
+            ss.append({"s": "let", "n": g1, "x": self.expr(I64), "ty": I64, "mut": True})
+            ss.append({"s": "let", "n": x, "x": {"e": "default", "td": self.tdesc(t)}, "ty": t, "mut": True, "noinit": True})
+            ss.append({"s": "let", "n": g2, "x": self.expr(I64), "ty": I64, "mut": True})
+            ss.append({"s": "print", "ty": I64, "x": {"e": "var", "n": g1}})
+            ss.append({"s": "print", "ty": I64, "x": {"e": "var", "n": g2}})
+            xv = {"e": "var", "n": x}
+            if t[0] == "arr":
+                last = {"e": "idx", "a": xv, "i": self.index_lit(t[1] - 1)}
+                if t[2][0] == "opt":
+                    ss.append({"s": "print", "ty": BOOL, "x": {"e": "isvar", "x": last, "k": 2, "sty": t[2]}})
+                else:
+                    ss.append({"s": "print", "ty": t[2], "x": last})
+            else:
+                ss.append({"s": "print", "ty": I32, "x": {"e": "fld", "x": xv, "f": "k"}})
+                ss.append({"s": "print", "ty": BOOL, "x": {"e": "isvar", "x": {"e": "fld", "x": xv, "f": "o"}, "k": 2, "sty": ("opt", U8)}})
+        else:
+            z = {"e": "rec", "ty": "Z0", "fs": []}
+            ss.append({"s": "print", "ty": I32, "x": {"e": "call", "f": "zp", "args": [z, self.expr(I32), z, self.expr(I32)]}})
+        return ss
 
     def stmt_scast(self):
         """a value of one aggregate type cast to another one with the same member names: every
@@ -848,7 +905,7 @@ class Gen:
                 continue
             if self.ptr_helpers and not self.noprint and self.r.random() < 0.08:
                 self.budget -= 3
-                ss += self.r.choice([self.stmt_ptr, self.stmt_ptr, self.stmt_slice, self.stmt_holder, self.stmt_scast])()
+                ss += self.r.choice([self.stmt_ptr, self.stmt_ptr, self.stmt_slice, self.stmt_holder, self.stmt_scast, self.stmt_misc])()
                 continue
             ss.append(self.stmt(allow_jump))
         self.scopes.pop()
@@ -1024,7 +1081,7 @@ class Gen:
                 continue
             if self.ptr_helpers and not self.noprint and self.r.random() < 0.12:
                 self.budget -= 3
-                ss += self.r.choice([self.stmt_ptr, self.stmt_ptr, self.stmt_slice, self.stmt_holder, self.stmt_scast])()
+                ss += self.r.choice([self.stmt_ptr, self.stmt_ptr, self.stmt_slice, self.stmt_holder, self.stmt_scast, self.stmt_misc])()
                 continue
             ss.append(self.stmt())
         tail = self.expr(ret) if ret is not None else NONE
@@ -1047,7 +1104,7 @@ class Gen:
         fns.append(self.try_helper())
         fns.append(self.try_eu_helper())
         self.has_try = True
-        fns += self.ptr_helper_fns() + self.slice_helper_fns() + self.fn_value_fns() + self.vararg_fns() + self.holder_fns()
+        fns += self.ptr_helper_fns() + self.slice_helper_fns() + self.fn_value_fns() + self.vararg_fns() + self.holder_fns() + self.misc_helper_fns()
         self.fn_ops = ["op_a", "op_b"]
         self.local_fns = []
         self.ptr_helpers = True
@@ -1076,6 +1133,7 @@ PRELUDE_TYPES = ("P :: struct { a: i32, b: u8 };\nQ :: struct { p: P, k: i64, f:
                  "PR :: struct { b: u8, a: i32 };\nPW :: struct { a: i64, b: u16 };\n"
                  "R2 :: struct { x: i32, y: i32 };\nR2s :: struct { y: i32, x: i32 };\n"
                  "Q2 :: struct { r: R2, k: i64 };\nQ2s :: struct { k: i32, r: R2s };\n"
+                 "Z0 :: struct {};\nDZ :: struct { a: u8, o: ?u8, k: i32 };\n"
                  # a value becomes an error union by implicit conversion (here: at a return)
                  "eu_bi_ok :: (v: i32) -> bool!i32 { v }\neu_bi_err :: (e: bool) -> bool!i32 { e }\n"
                  "eu_pl_ok :: (v: i64) -> P!i64 { v }\neu_pl_err :: (e: P) -> P!i64 { e }\n")
@@ -1212,6 +1270,8 @@ class Render:
             return ["%s :: %s;" % (s["n"], self.indent(self.expr(s["x"])))]
         if k == "let":
             t = tuple(s["ty"]) if isinstance(s["ty"], (list, tuple)) else s["ty"]
+            if s.get("noinit"):
+                return ["%s : %s;" % (s["n"], tyname(self.tup(t)))]
             if s.get("noann"):
                 return ["%s :%s %s;" % (s["n"], "=" if s["mut"] else ":", self.indent(self.expr(s["x"])))]
             tn = "usize" if s.get("usize") else (t if isinstance(t, str) else tyname(self.tup(t)))
@@ -1299,7 +1359,7 @@ class Render:
 def strip(x):
     """the abstract syntax without the renderer's annotations (types of lets / prints etc.)"""
     if isinstance(x, dict):
-        return {k: strip(v) for k, v in x.items() if k not in ("ty", "mut", "flat", "elem", "usize", "ret", "kind", "text", "plain", "sty", "order", "auto", "m", "char", "tychar", "inline", "lambda", "local", "comptime", "qual", "file", "tytext", "varargs", "text", "raw", "noann")
+        return {k: strip(v) for k, v in x.items() if k not in ("ty", "mut", "flat", "elem", "usize", "ret", "kind", "text", "plain", "sty", "order", "auto", "m", "char", "tychar", "inline", "lambda", "local", "comptime", "qual", "file", "tytext", "varargs", "text", "raw", "noann", "noinit")
                 or (k == "ty" and x.get("e") in ("int", "cast", "rec", "type"))}
     if isinstance(x, (list, tuple)):
         return [strip(v) for v in x]
